@@ -143,6 +143,47 @@ def check_rt(ctx, objs, population):
         ctx.violation(what, rp)
 
 
+def check_pk(ctx, objs):
+    """(d) the pickle protocol of the Python-visible classes (the *_py.rs pickling blocks), through the interpreter:
+    __getstate__ returns the bincode of the object, type(obj)(*obj.__getnewargs__()) constructs, __setstate__ restores;
+    the rebuilt object equals the original and answers every query identically"""
+    # PPSplineF64 / PPSplineDual / PPSplineDual2 define no pickling methods in rust/splines/spline_py.rs (kinds 7-9)
+    objs = [o for o in objs if o[0] <= 6]
+    lines = ["pk " + " ".join(map(str, o)) for o in objs]
+    impl = run_harness("json", lines)
+    groups = {}
+    names = ["__getstate__ returns the binary state of the object", "the rebuilt object compares equal to the original",
+             "every query is answered identically by the rebuilt object"]
+    for o, ln, a in zip(objs, lines, impl):
+        ctx.evaluations += 1
+        ty = J.KINDS[o[0]]
+        if a[0] == 1:
+            ctx.count("pk: constructor error (skipped)")
+            continue
+        ctx.count("pk (pickle protocol): %s" % ty)
+        if a[0] == 0 and len(a) >= 5 and a[1:4] == [1, 1, 1]:
+            if a[4] > 4:
+                ctx.nontriv(("pk", tuple(o)))
+            continue
+        if a[0] == 0:
+            key = (ty, "pickle-roundtrip")
+            what = "a %s does not survive the pickle protocol (__getstate__ / __getnewargs__ / __new__ / __setstate__): failed: %s" % (
+                ty, "; ".join(n for n, f in zip(names, a[1:4]) if f != 1))
+        elif a[0] == 3:
+            key = (ty, "pickle-error")
+            what = "pickling a %s raises: __getstate__, __getnewargs__, the constructor on those arguments or __setstate__ returns an error" % ty
+        else:
+            key = (ty, "pickle-abort")
+            what = "pickling a %s ABORTS" % ty
+        rp = {"part": "pk", "class": key[1], "type": ty, "object": o, "flags": a[:8], "harness_cmd": harness_cmd(ln)[:6000]}
+        ctx.count("pk finding: %s/%s" % key)
+        if key not in groups or len(o) < groups[key][0]:
+            groups[key] = (len(o), what, rp)
+    for key in sorted(groups):
+        _, what, rp = groups[key]
+        ctx.violation(what, rp)
+
+
 def run(ctx):
     th = ctx.tier == "thorough"
     ctx.rule = ("objects of all 10 serialisable types built by the real constructors (Dual/Dual2 with 0-4 variables incl. non-ASCII and "
@@ -200,6 +241,8 @@ def run(ctx):
     # (b) on the full space
     objs_f = gen_objects(ctx, n, J.full_float, "rt (full doubles)")
     check_rt(ctx, objs_f, "full")
+    # (d) the pickle protocol through the interpreter, on both populations (the state is binary: every double is exact)
+    check_pk(ctx, objs_s + objs_f)
     for o in objs_a[:3]:
         ctx.sample({"object_encoding": o[:60]})
     return ctx.finish(CMD)
@@ -219,6 +262,10 @@ def replay(ctx, rp):
         a = run_harness("json", ["rt " + " ".join(map(str, rp["object"]))])[0]
         bad = not (a[0] == 0 and all(f == 1 for f in a[1:7]))
         print("replay round trip of a %s: %s" % (rp.get("type"), "; ".join("%s=%s" % (n, f) for n, f in zip(FLAGS, a[1:8]))))
+    elif part == "pk":
+        a = run_harness("json", ["pk " + " ".join(map(str, rp["object"]))])[0]
+        bad = not (a[0] == 0 and a[1:4] == [1, 1, 1])
+        print("replay pickle protocol of a %s: outcome %s flags %s" % (rp.get("type"), a[:1], a[1:4]))
     elif part == "enc":
         o = rp["object"]
         op, mop = ("encd", 4) if rp.get("direct") else ("enc", 3)
